@@ -123,27 +123,55 @@ type vCli struct {
 
 func (c vCli) Client() client.APIClient { return c.c }
 
+type vCtr struct {
+	ID   string      `json:"id"`
+	Name string      `json:"name"`
+	Recs [][2]string `json:"recs"` // [unix nanoseconds as decimal text, line b64]
+}
+
 type vClient struct {
 	client.APIClient
 	mu   sync.Mutex
 	opts []apicontainer.LogsOptions
+	ctrs []vCtr
 }
 
 func (c *vClient) ContainerList(context.Context, apicontainer.ListOptions) ([]types.Container, error) {
-	return []types.Container{{ID: "c0", Names: []string{"/web"}, State: "running"}}, nil
+	if len(c.ctrs) == 0 {
+		return []types.Container{{ID: "c0", Names: []string{"/web"}, State: "running"}}, nil
+	}
+	var out []types.Container
+	for _, k := range c.ctrs {
+		out = append(out, types.Container{ID: k.ID, Names: []string{"/" + k.Name}, State: "running"})
+	}
+	return out, nil
 }
 
-func (c *vClient) ContainerLogs(_ context.Context, _ string, o apicontainer.LogsOptions) (io.ReadCloser, error) {
+// the container's records as a multiplexed stdout stream: 8-byte header, RFC3339Nano timestamp, space, line
+func (c *vClient) ContainerLogs(_ context.Context, id string, o apicontainer.LogsOptions) (io.ReadCloser, error) {
 	c.mu.Lock()
 	c.opts = append(c.opts, o)
 	c.mu.Unlock()
-	return io.NopCloser(strings.NewReader("")), nil
+	var sb strings.Builder
+	for _, k := range c.ctrs {
+		if k.ID != id {
+			continue
+		}
+		for _, r := range k.Recs {
+			var ns int64
+			fmt.Sscan(r[0], &ns)
+			payload := time.Unix(0, ns).UTC().Format(time.RFC3339Nano) + " " + vunb64(r[1])
+			sb.Write([]byte{1, 0, 0, 0, byte(len(payload) >> 24), byte(len(payload) >> 16), byte(len(payload) >> 8), byte(len(payload))})
+			sb.WriteString(payload)
+		}
+	}
+	return io.NopCloser(strings.NewReader(sb.String())), nil
 }
 
 // vQueryCmd runs the real `query` command (flag parsing, parseTimeRange, parseStep, the glue that hands the resolved range
 // to the engine) and reports the window the daemon was asked for, with the wall clock read before and after
 func vQueryCmd(req vreq) (map[string]any, error) {
-	cl := &vClient{}
+	cl := &vClient{ctrs: vget[[]vCtr](req, "ctrs")}
 	cmd := queryCmd(vCli{c: cl})
 	var args []string
 	for _, a := range vget[[]string](req, "args") {
@@ -164,6 +192,7 @@ func vQueryCmd(req vreq) (map[string]any, error) {
 		asked = append(asked, [2]string{o.Since, o.Until})
 	}
 	res["asked"] = asked
+	res["stdout"] = vs64(out.String())
 	return res, err
 }
 
